@@ -5,6 +5,7 @@ pub mod server_rig;
 pub mod wire;
 pub mod c01_single;
 pub mod c02_batch;
+pub mod c19_http_gate;
 pub mod c13_registry;
 pub mod c16_params_seq;
 pub mod c20_params_builder;
